@@ -297,12 +297,17 @@ pub fn layer_results(depth: u8) -> Value {
   let h = l.hash(1.0, 0.5);
   let c = l.center(h);
   let nb: Vec<u64> = l.neighbours(h, true).values_vec();
+  // more cells for the neighbour masks: interior cells with high coordinate bits set
+  let n4 = 1u64 << (2 * depth as u32);
+  let probes: Vec<u64> = if depth >= 2 { vec![6 * n4 + n4 / 2 + 5, 2 * n4 + n4 - 6, 9 * n4 + (n4 - 1) / 3, 4 * n4 + 2 * ((n4 - 1) / 3) - 1] } else { vec![] };
+  let nb_more: Vec<String> = probes.iter().map(|&p| l.neighbours(p, true).values_vec().iter().map(|x| x.to_string()).collect::<Vec<_>>().join(",")).collect();
   let d = depth.min(6);
   let cone = cdshealpix::nested::get_or_create(d).cone_coverage_approx(1.0, 0.5, 0.3);
   json!({
     "depth": depth, "n_hash": l.n_hash().to_string(), "hash": h.to_string(),
     "center": [format!("{:016x}", c.0.to_bits()), format!("{:016x}", c.1.to_bits())],
     "neighbours": nb.iter().map(|x| x.to_string()).collect::<Vec<_>>(),
+    "neighbours_more": nb_more,
     "cone_cells": cone.entries.len(), "cone_first": cone.entries.first().map(|x| x.to_string()),
     "c2v": format!("{:016x}", cdshealpix::largest_center_to_vertex_distance(depth, 0.3, 0.2).to_bits()),
     "c2v_polar": format!("{:016x}", cdshealpix::largest_center_to_vertex_distance(depth, 0.1, 1.2).to_bits()),
